@@ -166,9 +166,25 @@ func vxH02Unpack(dotu bool, lo int, hi int, only int, strmax int) {
 	vxReach("ok")
 }
 
-func vxH02Dir(dotu bool, lo int, hi int) {
+func vxH02Dir(dotu bool, lo int, hi int, strmax int) {
 	N := lo + vxChoose("N", hi-lo+1)
 	buf := vxBytes("in", N)
+	if strmax >= 0 {
+		pos := 41
+		nstr := 4
+		if dotu {
+			nstr = 5
+		}
+		for i := 0; i < nstr && pos+1 < N; i++ {
+			vxAssume(buf[pos+1] == 0)
+			vxAssume(int(buf[pos]) <= strmax)
+			l := 0
+			for l < strmax && int(buf[pos]) > l {
+				l++
+			}
+			pos += 2 + l
+		}
+	}
 	vxObserve("N", N)
 	vxAllocReset()
 	d, rest, amt, err := UnpackDir(buf, dotu)
